@@ -82,6 +82,13 @@ CLAIMED.update({
    note="arithmetic, rounding, saturation and comparison semantics of individual opcodes are not decided; two defect families (one-sided SCC, unmasked shifts) found and repaired by fix: commits"),
 })
 
+CLAIMED.update({
+ "C12": dict(
+   text="Structural conditions whose absence is the lost wake-up, the data race or the reordering, on all paths of amd/driver: capacity >= 1 of every channel targeted by a non-blocking send, the subscribe / test / wait / re-test shape of the drain loop, a guarded-by lockset analysis for five field/mutex pairs, no mixed atomic/plain access, FIFO ownership of the command list (tail append, head removal, index 0), one command at a time per queue, and a frozen inventory of goroutines, multi-way selects, engine runs and signal receivers. Liveness under all interleavings is a model-checking question and is not decided.",
+   ref="4/C12", technique="lockset dataflow on the CFG (guarded-by), dominance cuts (GUARD), who-may-write / shape rules on SSA, inventory of concurrency constructs",
+   note="the engine-exit versus enqueue hand-off race and memory effects between commands are not decided; three defects (unbuffered signal channel, plain read of nextPID, unlocked findContext) found and repaired by fix: commits"),
+})
+
 PENDING = {}
 
 NOT_APPLICABLE = {
